@@ -14,7 +14,8 @@ def scripted_experiment(table, obs, kinds=None):
         st["i"] += 1
         return data
 
-    conv = {"np": np.float64, "float": float, "int": lambda v: int(v) if float(v).is_integer() else float(v)}
+    conv = {"np": np.float64, "float": float, "int": lambda v: int(v) if float(v).is_integer() else float(v),
+            "f32": np.float32, "i64": lambda v: np.int64(v) if float(v).is_integer() else np.float64(v)}
 
     def mk(c):
         k = conv[(kinds or ["np"] * len(obs))[c]]
